@@ -454,6 +454,54 @@ def wrapper_contracts():
       requires=['seed is not NV'], env={'NV': NV},
       ensures=['result == ufn("functools.reduce", selector, collection, '
                'seed)'], serves=('C13',))
+    # ---- more thin wrappers: the right constructor, the right arguments --
+    c('concat', params=dict(collections=tuple_of(TVal, 2)),
+      ensures=['result == ufn("itertools.chain", collections[0], '
+               'collections[1])'], serves=('C13',))
+    c('zip_', params=dict(collections=tuple_of(TVal, 2)),
+      ensures=['result == ufn("py.zip", collections[0], collections[1])'],
+      serves=('C13',))
+    c('zip_longest', name='queries.zip_longest/default',
+      params=dict(collections=tuple_of(TVal, 2), kwargs={}),
+      ensures=['result == ufn("itertools.zip_longest$fillvalue", '
+               'collections[0], collections[1], None)'], serves=('C13',))
+    c('zip_longest', name='queries.zip_longest/fill',
+      params=dict(collections=tuple_of(TVal, 2), kwargs=_kw_default()),
+      ensures=['result == ufn("itertools.zip_longest$fillvalue", '
+               'collections[0], collections[1], FILL)'], serves=('C13',))
+    c('repeat', params=dict(value=TVal, times=TInt),
+      ensures=['implies(times < 0, result == ufn("itertools.repeat", '
+               'value))',
+               'implies(times >= 0, result == ufn("itertools.repeat", '
+               'value, times))'], serves=('C13',))
+    c('cycle', params=dict(collection=TVal),
+      ensures=['result == ufn("itertools.cycle", collection)'],
+      serves=('C13',))
+    c('sequence', params=dict(start=TInt, step=TInt),
+      ensures=['result == ufn("itertools.count", start, step)'],
+      serves=('C13',))
+    for fn, arg in (('sum_', 'operator'), ('max_', 'func'), ('min_', 'func')):
+        # sum / max / min ARE the fold of the injected binary operator
+        c(fn, name='queries.%s/noseed' % fn,
+          params={'collection': TVal, arg: TFunc(2)},
+          ensures=['result == ufn("functools.reduce", %s, collection)' % arg],
+          serves=('C13',))
+        c(fn, name='queries.%s/seed' % fn,
+          params={'collection': TVal, arg: TFunc(2), 'initial': TVal},
+          requires=['initial is not NV'], env={'NV': NV},
+          ensures=['result == ufn("functools.reduce", %s, collection, '
+                   'initial)' % arg], serves=('C13',))
+    for fn, asc in (('order_by', True), ('order_by_descending', False)):
+        # orderBy starts an ordering with ONE key of the given direction
+        c(fn, params=dict(collection=TVal, selector=TFunc(1),
+                          operator_lt=TFunc(2), operator_gt=TFunc(2)),
+          ensures=['isinstance(result, "OrderingIterable")',
+                   'result.collection == collection',
+                   'result.operator_lt is operator_lt and '
+                   'result.operator_gt is operator_gt',
+                   'len(result.order) == 1 and result.order[0][0] is '
+                   'selector and result.order[0][1] is %s' % asc,
+                   'result.sorted is None'], serves=('C13',))
     c('then_by', params=dict(collection=_oi(), selector=TFunc(1),
                              context=TVal),
       ensures=['result is collection',
@@ -468,6 +516,15 @@ def wrapper_contracts():
                'OLD_FIRST and collection.order[1][0] is selector and '
                'collection.order[1][1] is False'], serves=('C13',))
     return cs
+
+
+class _kw_default:
+    is_factory = True
+
+    def __call__(self, name, path):
+        v = TVal.fresh('FILL')
+        path.ghost['FILL'] = v
+        return {'default': v}
 
 
 class _oi:
@@ -759,4 +816,63 @@ def merge_contracts():
                  'calls[0][1][4] == max_levels and result == calls[0][2]',
                  'calls[0][1][3](X, Y) == Y'],
         serves=('C13',), native=False))
+    return cs
+
+
+def functional_contracts():
+    """C13 functional models (all lengths) of the remaining hand-written
+    query loops: distinct, accumulate, selectMany(scalar), groupBy."""
+    cs = []
+    IT = TIter(TVal)
+
+    def c(fname, **kw):
+        kw.setdefault('serves', ('C13',))
+        kw.setdefault('native', False)
+        x = Contract(Q + fname, **kw)
+        cs.append(x)
+        return x
+    # ---- distinct: the first occurrence of every key, in encounter order;
+    # pulls[k] - 1 is the source index of the k-th result --------------------
+    for keyed in (True, False):
+        K = 'key_selector(%s)' if keyed else '%s'
+        firsts = (
+            'forall(range(0, len(out)), lambda k: 1 <= pulls[k] and '
+            'pulls[k] <= %%s and out[k] == %s[pulls[k] - 1] and not '
+            'exists(range(0, pulls[k] - 1), lambda j: %s == %s))' % (
+                S_, K % (S_ + '[j]'), K % 'out[k]'))
+        incr = ('forall(range(0, len(out) - 1), lambda k: pulls[k] < '
+                'pulls[k + 1])')
+        covered = (
+            'forall(range(0, %%s), lambda i: exists(range(0, len(out)), '
+            'lambda k: pulls[k] - 1 <= i and %s == %s))' % (
+                K % 'out[k]', K % (S_ + '[i]')))
+        seen = ('forall(Val, lambda v: (v in distinct_values) == exists('
+                'range(0, n), lambda j: %s == v))' % (K % (S_ + '[j]')))
+        c('distinct', name='queries.distinct/%s' % (
+            'key' if keyed else 'plain'),
+          params=dict(engine=TVal, collection=IT,
+                      key_selector=TFunc(1) if keyed else None),
+          track_pulls='collection',
+          ensures=[firsts % ('len(%s)' % S_), incr,
+                   covered % ('len(%s)' % S_)],
+          loops=[dict(anchor='for t in collection', index='n',
+                      invariant=['SRC.pos == n', seen, firsts % 'n', incr,
+                                 covered % 'n'])])
+    # ---- accumulate: the running folds -------------------------------------
+    c('accumulate', name='queries.accumulate/seed',
+      params=dict(collection=IT, selector=TFunc(2), seed=TVal),
+      env={'NV': NV}, requires=['seed is not NV'],
+      track_pulls='collection',
+      ensures=['len(out) == len(%s) + 1' % S_, 'out[0] == seed',
+               'forall(range(0, len(%s)), lambda k: out[k + 1] == '
+               'selector(out[k], %s[k]))' % (S_, S_),
+               # streaming: the k-th fold needs exactly k source elements
+               'forall(range(0, len(out)), lambda k: pulls[k] == k)'],
+      loops=[dict(anchor='for x in it', index='n',
+                  invariant=['len(out) == n + 1', 'out[0] == seed',
+                             'total == out[n]',
+                             'forall(range(0, n), lambda k: out[k + 1] == '
+                             'selector(out[k], %s[k]))' % S_,
+                             'forall(range(0, len(out)), lambda k: '
+                             'pulls[k] == k)'])])
     return cs
